@@ -31,6 +31,14 @@ fn main() {
     if std::env::var("WALRUS_QUIET").is_err() {
         unsafe { std::env::set_var("WALRUS_QUIET", "1") };
     }
+    // Panics of the code under test are results; keep their messages for diagnosis.
+    std::panic::set_hook(Box::new(|info| {
+        if let Ok(p) = std::env::var("VERIF_PANIC_LOG") {
+            if let Ok(mut f) = std::fs::OpenOptions::new().create(true).append(true).open(p) {
+                let _ = writeln!(f, "{}", info);
+            }
+        }
+    }));
     match args[1].as_str() {
         "geom" => {
             let g = exec::geometry();
